@@ -42,17 +42,73 @@ package predicates
 //@   ensures [acceptsAll] result0 && len(result1) == 0 && result2 == nil
 //@ end
 
-//@ func NewMaxNodeResourcesPredicate
-//@   props C04
-//@   trusted
-//@   fresh
-//@   ensures result != nil
-//@ end
+// ---- KAI's own predicates of the table ---------------------------------------------------------------------------------
+// (1) ConfigMap predicate (config_maps.go): a pod whose required config maps are missing from the snapshot is not placed.
+// cmKnown(p, ns, name): the predicate's index holds config map ns/name
+//@ define cmKnown(p *ConfigMapPredicate, ns string, name string) bool = p.configMapsNames[ns] != nil && p.configMapsNames[ns][name]
+
+// the index is exactly the snapshot: ns/name is known iff some config map of the snapshot has that namespace and name
 //@ func NewConfigMapPredicate
 //@   props C04
-//@   trusted
+//@   assume forall id in configmaps :: configmaps[id] != nil
+//@   note assumed data invariant of the snapshot: no nil config map entry
 //@   fresh
-//@   ensures result != nil
+//@   loop 1
+//@     invariant predicate != nil && fresh(predicate) && predicate.configMapsNames != nil && fresh(predicate.configMapsNames)
+//@     invariant forall ns in predicate.configMapsNames :: predicate.configMapsNames[ns] != nil && fresh(predicate.configMapsNames[ns])
+//@     invariant forall a in predicate.configMapsNames :: forall b in predicate.configMapsNames :: a != b ==> predicate.configMapsNames[a] != predicate.configMapsNames[b]
+//@     invariant forall m map[string]bool, k string :: old(allocated(m)) ==> (k in m) == old(k in m) && m[k] == old(m[k])
+//@     invariant forall id in visited :: id in configmaps
+//@     invariant forall id in visited :: cmKnown(predicate, configmaps[id].Namespace, configmaps[id].Name)
+//@     invariant forall ns string, name string :: cmKnown(predicate, ns, name) ==> (exists id in visited :: configmaps[id].Namespace == ns && configmaps[id].Name == name)
+//@   ensures [indexNonNil] result != nil && result.configMapsNames != nil
+//@   ensures [everySnapshotConfigMapKnown] forall id in configmaps :: cmKnown(result, configmaps[id].Namespace, configmaps[id].Name)
+//@   ensures [onlySnapshotConfigMapsKnown] forall ns string, name string :: cmKnown(result, ns, name) ==> (exists id in configmaps :: configmaps[id].Namespace == ns && configmaps[id].Name == name)
+//@ end
+
+//@ func (*ConfigMapPredicate).configMapExists
+//@   props C04
+//@   requires cmp != nil
+//@   pure
+//@   ensures [lookup] result == cmKnown(cmp, namespace, name)
+//@ end
+
+//@ func (*ConfigMapPredicate).isFilterRequired
+//@   props C04
+//@   pure
+//@   ensures [noFilterStage] !result
+//@ end
+
+// (2) MaxNodePoolResources predicate (maxNodeResources.go): a pod that asks for more than the largest node offers is not
+// placed. What keeps this predicate from rejecting a pod that DOES fit some node (C05 "filters ... must only prune
+// hopeless cases") is that maxResources dominates every node's allocatable resources, component by component.
+//@ define dominates(m *resource_info.Resource, a *resource_info.Resource) bool = a.gpus <= m.gpus && a.milliCpu <= m.milliCpu && a.memory <= m.memory && (forall k in a.scalarResources :: k in m.scalarResources && a.scalarResources[k] <= m.scalarResources[k])
+
+//@ func NewMaxNodeResourcesPredicate
+//@   props C04
+//@   assume forall k in nodesMap :: nodesMap[k] != nil && nodesMap[k].Allocatable != nil
+//@   assume resource_info.claimsNonNil(resourceClaims)
+//@   note assumed data invariants of the snapshot (no nil node, every node has its Allocatable resource, no nil claim): the caller NewSessionPredicates reads them from ssn.ClusterInfo right after a cache call, nothing carries them there
+//@   fresh
+//@   loop 1
+//@     invariant predicate != nil && fresh(predicate) && predicate.maxResources != nil && fresh(predicate.maxResources)
+//@     invariant predicate.maxResources.scalarResources == nil || fresh(predicate.maxResources.scalarResources)
+//@     invariant forall k in visited :: k in nodesMap
+//@     invariant forall k in nodesMap :: nodesMap[k] != nil && nodesMap[k].Allocatable != nil && !fresh(nodesMap[k].Allocatable) && (nodesMap[k].Allocatable.scalarResources == nil || !fresh(nodesMap[k].Allocatable.scalarResources))
+//@     invariant forall k in visited :: dominates(predicate.maxResources, nodesMap[k].Allocatable)
+//@   ensures [nonNil] result != nil && result.maxResources != nil
+//@   ensures [maxDominatesEveryNode] forall k in nodesMap :: dominates(result.maxResources, nodesMap[k].Allocatable)
+//@ end
+
+//@ func (*MaxNodeResourcesPredicate).isPreFilterRequired
+//@   props C04
+//@   pure
+//@   ensures [checkedForEveryPod] result
+//@ end
+//@ func (*MaxNodeResourcesPredicate).isFilterRequired
+//@   props C04
+//@   pure
+//@   ensures [noFilterStage] !result
 //@ end
 
 // the volume-binding filter wrapper (volume_binding.go) wraps the upstream VolumeBinding plugin object it is given
